@@ -21,7 +21,7 @@ import json
 import hostlib as H
 import vlib
 
-THEOREMS = ["C07_history_independent", "C07_raw_api_refuted"]
+THEOREMS = ["C07_history_independent", "C07_queries", "C07_raw_api_refuted"]
 TRUSTED = [
     "Coq 8.16.1 kernel (vm_compute only inside Examples and the raw-API counterexample)",
     "salsa 0.16 returns for a derived query what the query function returns on the current inputs, and the query functions "
@@ -49,7 +49,8 @@ A = [H.build_text([("inc", "b.td"), ("raw", "class A : B;")]),
 B = [H.build_text([("raw", "class B;")]),
      H.build_text([("inc", "c.td"), ("raw", "class B : C;")]),
      H.build_text([("inc", "a.td"), ("raw", "class B;")])]
-OPS = [("a.td", t) for t in A] + [("b.td", t) for t in B]
+SHARED = H.build_text([("raw", "class Shared;")])                  # the same text sent for two different documents
+OPS = [("a.td", t) for t in A + [SHARED]] + [("b.td", t) for t in B + [SHARED]]
 DISK = [["a.td", A[2]], ["b.td", B[0]], ["c.td", H.build_text([("raw", "class C;")])]]
 
 
@@ -96,7 +97,8 @@ def random_history(rng, quick):
     hist = []
     for _ in range(L):
         i = rng.randrange(n)
-        hist.append(["touch", fname(i), rng.choice(variants[i])])
+        j = i if rng.random() < 0.85 else rng.randrange(n)          # sometimes the text of another document
+        hist.append(["touch", fname(i), rng.choice(variants[j])])
     return {"mode": "memfs", "files": files, "include_dir": inc, "full": True, "history": hist,
             "gen": "random n=%d L=%d" % (n, L)}
 
@@ -118,11 +120,33 @@ def pub(c):
 def check(ctx, bindir, exe, cases):
     """-> (violations {kind: (case, step, detail)}, ties, stats)"""
     res = H.evaluate(bindir, exe, cases, timeout_ms=4000)
+    # a history that fails as a whole (panic / hang / abort of the child): find the first failing step by
+    # running its proper prefixes; the steps before it are compared as usual, the failing step is compared
+    # with its own fresh host (both failing is not a C07 matter)
+    failed_at = {}
+    for ci, (c, r) in enumerate(zip(cases, res)):
+        if "steps" in r["impl"] or r["impl"].get("skipped"):
+            continue
+        n = len(c["history"])
+        prefixes = [dict(c, history=c["history"][:k]) for k in range(1, n)]
+        pres = H.run_harness(bindir, prefixes, 4000) if prefixes else []
+        k_fail, good = n - 1, None
+        for k, pr in enumerate(pres):
+            if "steps" in pr:
+                good = pr
+            else:
+                k_fail = k
+                break
+        failed_at[ci] = (k_fail, r["impl"])
+        r["impl_failure"] = r["impl"]
+        r["impl"] = good if good is not None else {"steps": []}
     # the fresh hosts, deduplicated
     fresh, order = {}, []
     want = []                       # (case index, step, fresh key)
     for ci, (c, r) in enumerate(zip(cases, res)):
         n = len(r["impl"]["steps"]) if "steps" in r["impl"] else len(c["history"])
+        if ci in failed_at:
+            n = failed_at[ci][0] + 1
         for k in range(n):
             f = H.fresh_case(c, k, full=True)
             key = H.case_key(f)
@@ -146,15 +170,13 @@ def check(ctx, bindir, exe, cases):
         c, r, fr = cases[ci], res[ci], fres[key]
         if r["impl"].get("skipped") or fr.get("skipped"):
             continue
-        hist_ok, fresh_ok = "steps" in r["impl"], "steps" in fr
+        hist_ok, fresh_ok = "steps" in r["impl"] and k < len(r["impl"]["steps"]), "steps" in fr
         if not hist_ok:
-            # the whole history failed (panic / hang): only the last step can be attributed
-            if k != len(c["history"]) - 1:
-                continue
-            if fresh_ok:
-                note("history-fails-fresh-does-not", c, k, {"history": r["impl"], "fresh_case": fresh[key]})
-            else:
-                stats["both_fail"] += 1
+            if ci in failed_at and k == failed_at[ci][0]:
+                if fresh_ok:
+                    note("history-fails-fresh-does-not", c, k, {"history": failed_at[ci][1], "fresh_case": fresh[key]})
+                else:
+                    stats["both_fail"] += 1
             continue
         if not fresh_ok:
             note("fresh-fails-history-does-not", c, k, {"fresh": fr, "fresh_case": fresh[key]})
@@ -211,8 +233,8 @@ def run(ctx):
         "histories": ran,
         "fresh_hosts_started": stats["fresh_hosts"],
         "distinct_nontrivial": len(stats["nontrivial"]),
-        "rule": "every history of length %d over {a.td, b.td} x 3 texts each (include added / removed / retargeted on the same range, cycle, "
-                "root switches; c.td only on disk) = %d histories, plus %d random histories (2..%d touches over 2..5 files, 3 texts per file: "
+        "rule": "every history of length %d over {a.td, b.td} x 4 texts each (include added / removed / retargeted on the same range, cycle, "
+                "root switches, one text common to both documents; c.td only on disk) = %d histories, plus %d random histories (2..%d touches over 2..5 files, 3 texts per file: "
                 "includes nested in blocks, missing targets, INCLUDE_DIR, semantic references across files, syntax errors); "
                 "EVERY step of every history is compared with a fresh host; non-trivial = distinct history prefix whose last step changed the root, "
                 "the file set or an include map" % (L, nsmall, nrand, 6 if ctx.quick else 10),
